@@ -58,7 +58,7 @@ func valJSON(v value.Type) any {
 	}
 	if i, ok := v.ToInt(); ok {
 		if i > 1<<30 || i < -(1<<30) {
-			return M{"k": "bigint", "txt": fmt.Sprint(i)}
+			return M{"k": "bigint", "txt": chars(fmt.Sprint(i))}
 		}
 		return M{"k": "int", "v": i}
 	}
@@ -101,7 +101,7 @@ func astJSON(n node.Type) any {
 	switch v := n.(type) {
 	case node.Int:
 		if int(v) > 1<<30 || int(v) < -(1<<30) {
-			return M{"t": "bigint", "txt": fmt.Sprint(int(v))}
+			return M{"t": "bigint", "txt": chars(fmt.Sprint(int(v)))}
 		}
 		return M{"t": "int", "v": int(v)}
 	case node.Float:
